@@ -521,8 +521,16 @@ func propCorpus(c CorpusCase, st *corpusStats) *vlib.Failure {
 				}
 				idfs[term] = idfNode.Value
 				idf := idfNode.Value
-				// the score is boost * idf * tf of the true statistics
-				e := bmul(bf(idf), tfExact(truth.Freq, 1.2, 0.75, truth.DL, truth.SumTTF, truth.N))
+				// the score is idf * tf: the formula of the tf node's own message on the true statistics
+				tfNode, _ := childByName(expl[k].Expl, "tf")
+				if tfNode == nil {
+					return vlib.Failf("explain-missing-child", "term explanation without a tf child; %s", w)
+				}
+				tfv, f := formulaValue(tfNode, map[string]float64{"freq": truth.Freq, "dl": truth.DL})
+				if f != nil {
+					return f
+				}
+				e := bmul(bf(idf), tfv)
 				errUlp := math.Abs(f64(bsub(bf(h.Score), e))) / ulp(idf)
 				if errUlp > st.maxErrUlp {
 					st.maxErrUlp = errUlp
